@@ -40,11 +40,12 @@ class KeyContract(Contract):
         st = c.pre
         kf = keyfn(st, c.self)
         x = c.item
-        dk, dr = defkey(c.eng, st, x)
-        from pyvc.symex import APP, APP_RAISES
+        dk, dr, dx = defkey(c.eng, st, x)
+        from pyvc.symex import APP, APP_RAISES, APP_EXC
         t = c.eng.truthy(st, kf)
         st.assume(kappa(kf, x) == z3.If(t, APP[1](kf, x), dk))
         st.assume(kappa_raises(kf, x) == z3.If(t, APP_RAISES[1](kf, x), dr))
+        st.assume(kappa_exc(kf, x) == z3.If(t, APP_EXC[1](kf, x), dx))
         st.assume(z3.Not(is_absent(kf)))
 
     def post(self, c):
@@ -53,7 +54,14 @@ class KeyContract(Contract):
                 ("value", z3.Not(is_absent(c.res)))]
 
     def exc_any(self, c):
-        return [("raises", KR(c.pre, c.self, c.item))]
+        e = c.exc
+        kx = kappa_exc(keyfn(c.pre, c.self), c.item)
+        if e.cid is not None:
+            cls_clause = kx == e.cid
+        else:
+            c.eng.known.add(e.cls)
+            cls_clause = kx == CLS.cid(e.cls)
+        return [("raises", KR(c.pre, c.self, c.item)), ("class", cls_clause)]
 
 
 def defkey(eng, st, x):
@@ -70,8 +78,10 @@ def defkey(eng, st, x):
     kname = s_of(mk)
     kv = z3.If(is_ref(x), z3.Select(st.get("idict", a_of(x)), kname), ABSENT)
     kval = z3.If(is_absent(kv), clsattr(eng.type_of(st, x), kname), kv)
+    eng.known.update(("AttributeError", "TypeError"))
     return (z3.If(keyed, kval, x),
-            z3.If(broken, True, z3.If(keyed, is_absent(kval), z3.Not(hashable(x)))))
+            z3.If(broken, True, z3.If(keyed, is_absent(kval), z3.Not(hashable(x)))),
+            z3.If(z3.Or(broken, keyed), CLS.cid("AttributeError"), CLS.cid("TypeError")))
 
 
 def meta_key(eng, st, meta):
